@@ -10,6 +10,7 @@ import (
 	"net/http"
 	"os"
 	"strconv"
+	"strings"
 	"sync"
 	"time"
 
@@ -142,6 +143,13 @@ func frameBytesF(f []any, tag func(sid uint32) string, trailer bool, front bool)
 		}
 		if front && !trailer {
 			fs = append(fs, h2raw.HF{"x-vf-front", "1"})
+		}
+		if kind == "toolong" && !trailer {
+			// 60 fields of 100 octets each as the limit counts them (name + value + 32): above the limit of the stack under test
+			// (MaxHeaderBytes 4096 -> 4416), below twice the limit in encoded form (more would be a connection error)
+			for i := 0; i < 60; i++ {
+				fs = append(fs, h2raw.HF{fmt.Sprintf("x-big-%02d", i), strings.Repeat("v", 60)})
+			}
 		}
 		if kind == "clsmall" && !trailer {
 			fs = append(fs, h2raw.HF{"content-length", "1"}) // less than any DATA frame of the alphabet carries
@@ -321,7 +329,11 @@ func runPath(st *stack.Stack, g *gated, p Path) PathObs {
 				if r.Ended && !reported[sid] {
 					reported[sid] = true
 					ended[sid] = true
-					got = append(got, []any{"RESP", sid})
+					if r.Status == "431" {
+						got = append(got, []any{"RESP431", sid})
+					} else {
+						got = append(got, []any{"RESP", sid})
+					}
 				}
 			}
 			if usePing && gotAck && (waitResp == 0 || reported[waitResp]) && (waitRST == 0 || sawRST) {
@@ -393,7 +405,22 @@ func runPath(st *stack.Stack, g *gated, p Path) PathObs {
 			case wasOpen && typ != "CONT" || (openBlock && wantConnErr):
 				got, e = collect(0, false, true) // the server must answer with GOAWAY on its own
 			default:
-				got, e = collect(0, true, false)
+				// a 431 of the server's own is written by a goroutine: wait for it (and for the reset behind it) beyond the barrier
+				wr := uint32(0)
+				for _, x := range s.Expect {
+					if x[0] == "RESP431" {
+						wr = sid
+					}
+				}
+				if wr != 0 {
+					for _, x := range s.Expect {
+						if x[0] == "S" {
+							waitRST = sid
+						}
+					}
+				}
+				got, e = collect(wr, true, false)
+				waitRST = 0
 			}
 			so.Got, so.Err = got, e
 			// did the request reach the handler?
@@ -499,6 +526,7 @@ func main() {
 	g := &gated{arrived: map[string]bool{}, gates: map[string]chan struct{}{}}
 	st, err := stack.Start(stack.Options{BackendHandler: g, MutateServer: func(s *proxyserver.Server) {
 		s.HTTP2Server.MaxConcurrentStreams = 2
+		s.HTTPServer.MaxHeaderBytes = 4096 // header list limit of the HTTP/2 server: 4096 + 10 * 32
 		if v, err := strconv.Atoi(os.Getenv("VF_ADVMAX")); err == nil && v > 0 {
 			s.HTTP2Server.MaxConcurrentStreams = uint32(v) // the specification's AdvMax
 		}
